@@ -12,7 +12,9 @@ P = {
          "Machine-checked proof (Coq) that the model of graph admission (name resolution + the code's Kahn elimination) "
          "accepts a list of distinctly named steps iff every depends entry resolves and the dependency relation is acyclic, "
          "for every graph of every size; the model is tied to /repo on every run by a differential run of the real "
-         "scheduler.NewExecutionGraph (exhaustive small digraphs + random graphs up to 40 steps) evaluated inside Coq, "
+         "scheduler.NewExecutionGraph (exhaustive small digraphs + random graphs up to 40 steps; the same graphs written as DAG files "
+         "and taken through the real loader dag.LoadYAML first, incl. a self-dependency hidden in a longer depends list; and graphs of 12 "
+         "and 23 steps judged in a process of their own, where node ids are 1..n as in a real start) evaluated inside Coq, "
          "and the implementation's verdict is also checked against an independent statement of the property; the agent-level clause "
          "(a refused graph: no step, no handler, nothing recorded) is proved on the agent's action-list model and checked on real in-process "
          "agent runs (cycle / missing dependency / control), with a watchdog: an admitted cyclic graph that makes the agent hang is a monitor "
